@@ -92,6 +92,150 @@ func (o *Opts) Coq() string {
 		vh.CoqBool(o.ForUpdate), strs(o.ForceIdx), strs(o.UseIdx))
 }
 
+// CoqCall prints the options as the model's copts: the statement part and AllowNoIndex.
+func (o *Opts) CoqCall() string {
+	if o == nil {
+		return "None"
+	}
+	inner := o.Coq() // (Some (mk_opts ...))
+	inner = strings.TrimSuffix(strings.TrimPrefix(inner, "(Some "), ")")
+	return "(Some (" + inner + ", " + vh.CoqBool(o.AllowNoIndex) + "))"
+}
+
+// Step is one With* call in the chain that derives a handle from a fresh DB: Kind "shard" (WithShardLimit
+// Filter), "dyn" (WithDynamicLimit: GetLimitFilter answers Filter, nil included; Cb = ShouldContinueOnError
+// is set, Cont = its answer), "explain" (WithPanicOnNoIndex).
+type Step struct {
+	Kind   string `json:"kind"`
+	Filter Filter `json:"filter,omitempty"`
+	Cb     bool   `json:"cb,omitempty"`
+	Cont   bool   `json:"cont,omitempty"`
+}
+
+func (s Step) Coq() string {
+	switch s.Kind {
+	case "shard":
+		f := s.Filter
+		if f == nil {
+			f = Filter{}
+		}
+		return "(StShard " + f.Coq() + ")"
+	case "dyn":
+		return fmt.Sprintf("(StDyn %s %s %s)", coqOptFilter(s.Filter, s.Filter != nil), vh.CoqBool(s.Cb), vh.CoqBool(s.Cont))
+	}
+	return "StExplain"
+}
+
+// StepsOf: the chain Restrict performs for a handle description (shard limit first, then the dynamic limit).
+func StepsOf(h Handle) []Step {
+	var out []Step
+	if h.Shard != nil {
+		out = append(out, Step{Kind: "shard", Filter: h.Shard})
+	}
+	if h.HasDyn {
+		out = append(out, Step{Kind: "dyn", Filter: h.Dyn, Cb: h.DynCb, Cont: h.DynContinue})
+	}
+	return out
+}
+
+// HandleOf: the harness's own reading of a chain (independent of sqlgen and of the model): the first shard
+// limit and the first dynamic limit stay, later ones are refused; explain = WithPanicOnNoIndex was called.
+func HandleOf(steps []Step) (h Handle, explain bool, refused []bool) {
+	for _, s := range steps {
+		switch s.Kind {
+		case "shard":
+			if h.Shard != nil {
+				refused = append(refused, true)
+				continue
+			}
+			h.Shard = s.Filter
+			if h.Shard == nil {
+				h.Shard = Filter{}
+			}
+		case "dyn":
+			if h.HasDyn {
+				refused = append(refused, true)
+				continue
+			}
+			h.HasDyn, h.Dyn, h.DynCb, h.DynContinue = true, s.Filter, s.Cb, s.Cont
+		default:
+			if explain {
+				refused = append(refused, true)
+				continue
+			}
+			explain = true
+		}
+		refused = append(refused, false)
+	}
+	return
+}
+
+// Derive applies the chain to the environment's base DB; refused[i] says that call i returned an error
+// (the handle then stays as it was).
+func (e *Env) Derive(steps []Step) (db *sqlgen.DB, refused []bool) {
+	db = e.Base
+	for _, s := range steps {
+		var next *sqlgen.DB
+		var err error
+		switch s.Kind {
+		case "shard":
+			f := s.Filter
+			if f == nil {
+				f = Filter{}
+			}
+			next, err = db.WithShardLimit(f.Go(e.Pool))
+		case "dyn":
+			var dynF sqlgen.Filter
+			if s.Filter != nil {
+				dynF = s.Filter.Go(e.Pool)
+			}
+			dl := sqlgen.DynamicLimit{GetLimitFilter: func(context.Context, string) sqlgen.Filter { return dynF }}
+			if s.Cb {
+				cont := s.Cont
+				dl.ShouldContinueOnError = func(error, string) bool { return cont }
+			}
+			next, err = db.WithDynamicLimit(dl)
+		default:
+			next, err = db.WithPanicOnNoIndex()
+		}
+		if err != nil || next == nil {
+			refused = append(refused, true)
+			continue
+		}
+		refused = append(refused, false)
+		db = next
+	}
+	return db, refused
+}
+
+// DeriveOne makes one With* call on db and drops the derived handle: only whether it is refused matters.
+// (WithPanicOnNoIndex changes db itself: the caller does this last.)
+func DeriveOne(db *sqlgen.DB, s Step, pool Pool) error {
+	var err error
+	switch s.Kind {
+	case "shard":
+		f := s.Filter
+		if f == nil {
+			f = Filter{}
+		}
+		_, err = db.WithShardLimit(f.Go(pool))
+	case "dyn":
+		var dynF sqlgen.Filter
+		if s.Filter != nil {
+			dynF = s.Filter.Go(pool)
+		}
+		dl := sqlgen.DynamicLimit{GetLimitFilter: func(context.Context, string) sqlgen.Filter { return dynF }}
+		if s.Cb {
+			cont := s.Cont
+			dl.ShouldContinueOnError = func(error, string) bool { return cont }
+		}
+		_, err = db.WithDynamicLimit(dl)
+	default:
+		_, err = db.WithPanicOnNoIndex()
+	}
+	return err
+}
+
 // Env is one fake server with the catalogue and a restricted sqlgen handle.
 type Env struct {
 	Srv  *fakesql.Server
@@ -144,6 +288,9 @@ func (e *Env) Restrict(h Handle) (*sqlgen.DB, error) {
 	}
 	return db, nil
 }
+
+// Begin opens a transaction on the environment's connection pool directly (not through sqlgen).
+func (e *Env) Begin() (*sql.Tx, error) { return e.conn.Begin() }
 
 func (e *Env) Close() {
 	e.conn.Close()
